@@ -940,8 +940,10 @@ def recvSlot (cfg : Cfg) (w : World) (k : Nat) (bs : Str) : World × List Ev :=
 
 `readv` is called until it answers something that is not a positive count; everything read is appended to the receive
 buffer and handed over in ONE delivery; the answer that ended the loop is looked at only when the very first call gave
-it: end of file and every error but EAGAIN close the connection (`onSocketClosed` → `onTcpDisconnected` →
-`deleteSession`), EAGAIN means "nothing there". The kernel's answers are an oracle: `chunks` are the counts of the
+it: end of file and every error but EAGAIN / EINTR close the connection (`onSocketClosed` → `onTcpDisconnected` →
+`deleteSession`); EAGAIN and EINTR (fix 1c1abc6: it used to be reported as a read error and tore a live connection down)
+mean "nothing read now, nothing wrong with the descriptor": nothing is delivered, the connection stays, the read event
+fires again. The kernel's answers are an oracle: `chunks` are the counts of the
 scripted successful calls (each at most what is queued), `term` what it says afterwards; `term = 0` and a scripted call
 that meets an empty queue are answered by the real kernel: everything queued, then EAGAIN — or end of file when the client
 has closed its end. -/
@@ -955,6 +957,9 @@ deriving DecidableEq, Repr
 
 def termName : Nat → String
   | 1 => "EAGAIN" | 2 => "EOF" | 3 => "ECONNRESET" | 4 => "EINTR" | _ => "EIO"
+
+/-- the answers of `readv` that are not the end of the stream: EAGAIN (1) and EINTR (4) -/
+def termTransient (term : Nat) : Bool := term = 1 || term = 4
 
 /-- the scripted successful calls: (data, rest of the queue, tokens, "a scripted call met an empty queue") -/
 def rdChunks : Str → List Nat → Str × Str × List String × Bool
@@ -972,7 +977,7 @@ def sockRead (kq : Str) (gone : Bool) (chunks : List Nat) (term : Nat) : RdRes :
     { data := data, rest := [], closed := data.isEmpty && gone,
       toks := c.2.2.1 ++ (if c.2.1.isEmpty then [] else ["readv=+" ++ toString c.2.1.length]) ++ [if gone then "readv=EOF" else "readv=EAGAIN"] }
   else
-    { data := c.1, rest := c.2.1, closed := c.1.isEmpty && term ≠ 1, toks := c.2.2.1 ++ ["readv=" ++ termName term] }
+    { data := c.1, rest := c.2.1, closed := c.1.isEmpty && !termTransient term, toks := c.2.2.1 ++ ["readv=" ++ termName term] }
 
 /-- the connection of slot `k` is over for the service (end of file / read error found by its read event): the session is
 deleted; the descriptor is closed by a deferred task -/
